@@ -12,6 +12,9 @@ Structural clauses decided (cardillo/urdf/system_from_urdf.py):
  R6 axis scale invariance     (K6, group joint.axis -> s * joint.axis) per joint-type branch the child's relative pose and velocity
                              (J_r_JRc, A_JRc, J_v_JRc, J_omega_JRc) have scaling degree 0 in the URDF axis: URDF gives a direction,
                              the requested joint coordinate is a length / an angle along the NORMALISED axis
+ R7 axis is honoured         every joint type whose URDF meaning depends on <axis> (revolute, continuous, prismatic, planar) reads
+                             joint.axis, and both the joint frame handed to the constraint (A_IJ0) and the non-zero relative pose /
+                             velocity of the child depend on it (forward taint inside the branch)
  R5 body kwargs              RigidBody / Frame bodies are constructed with keys their constructors accept
 """
 from __future__ import annotations
@@ -44,6 +47,74 @@ def ctor_signature(model, cname):
     required = set(pos[: len(pos) - nd]) | {k.arg for k, d in zip(a.kwonlyargs, a.kw_defaults) if d is None}
     accepted = set(pos) | {k.arg for k in a.kwonlyargs}
     return required, accepted, a.kwarg is not None
+
+
+AXIS_TYPES = {"revolute": ("A_JRc", "J_omega_JRc"), "continuous": ("A_JRc", "J_omega_JRc"), "prismatic": ("J_r_JRc", "J_v_JRc"),
+              "planar": ("J_r_JRc", "J_v_JRc")}
+
+
+def axis_used(ctx):
+    rep = ctx.rep
+    fn = ctx.repo.get(URDF, "joint_kinematics")
+    C = f"{URDF}:joint_kinematics"
+    chain = [s for s in fn.body if isinstance(s, ast.If) and "joint.type" in norm_src(s.test)]
+    if len(chain) != 1:
+        raise AnalysisError(f"{C}: the joint-type dispatch was not found")
+    node = chain[0]
+    branches = []
+    while True:
+        types = [c.value for c in ast.walk(node.test) if isinstance(c, ast.Constant) and isinstance(c.value, str)]
+        branches.append((types, node.body, node))
+        if len(node.orelse) == 1 and isinstance(node.orelse[0], ast.If):
+            node = node.orelse[0]
+        else:
+            break
+    for types, body, ifn in branches:
+        ax_types = [t for t in types if t in AXIS_TYPES]
+        if not ax_types:
+            continue
+        tainted = set()
+        a_ij0 = None
+        outs = {}
+
+        def is_tainted(e):
+            for w in ast.walk(e):
+                if isinstance(w, ast.Attribute) and norm_src(w) == "joint.axis":
+                    return True
+                if isinstance(w, ast.Name) and w.id in tainted:
+                    return True
+            return False
+
+        for _ in range(2):  # two passes: loops / later redefinitions
+            for st in [x for s_ in body for x in ast.walk(s_) if isinstance(x, (ast.Assign, ast.AugAssign))]:
+                val = st.value
+                tg = st.targets if isinstance(st, ast.Assign) else [st.target]
+                for t in tg:
+                    for tt in (t.elts if isinstance(t, (ast.Tuple, ast.List)) else [t]):
+                        if isinstance(tt, ast.Name):
+                            if is_tainted(val) or (isinstance(st, ast.AugAssign) and tt.id in tainted):
+                                tainted.add(tt.id)
+                            outs.setdefault(tt.id, []).append(val)
+                        elif isinstance(tt, ast.Subscript) and norm_src(tt) in ("kwargs_joint['A_IJ0']", 'kwargs_joint["A_IJ0"]'):
+                            a_ij0 = (val, is_tainted(val))
+        label = "/".join(ax_types)
+        if a_ij0 is None:
+            rep.bad("C28.R7", C, ifn.test, f"`{label}`: no joint frame A_IJ0 is handed to the joint", f"{URDF}:{ifn.lineno}")
+        elif a_ij0[1]:
+            rep.ok("C28.R7", C, f"`{label}`: kwargs_joint['A_IJ0'] = {norm_src(a_ij0[0])} depends on joint.axis")
+        else:
+            rep.bad("C28.R7", C, a_ij0[0], f"`{label}`: the joint frame `{norm_src(a_ij0[0])}` does not depend on the URDF <axis>: the joint moves about / along / in the plane of a "
+                    "fixed direction of the joint frame, whatever axis the robot description states", f"{URDF}:{a_ij0[0].lineno}")
+        for o in AXIS_TYPES[ax_types[0]]:
+            vals = outs.get(o, [])
+            nonzero = [v for v in vals if not (isinstance(v, ast.Call) and (dotted(v.func) or "").split(".")[-1] in ("zeros", "eye"))]
+            if not nonzero:
+                rep.bad("C28.R7", C, ifn.test, f"`{label}`: {o} is never computed from the requested joint coordinate", f"{URDF}:{ifn.lineno}")
+            elif o in tainted:
+                rep.ok("C28.R7", C, f"`{label}`: {o} depends on joint.axis")
+            else:
+                rep.bad("C28.R7", C, nonzero[0], f"`{label}`: {o} = `{norm_src(nonzero[0])}` does not depend on the URDF <axis>: the child is placed / moves along fixed directions of "
+                        "the joint frame instead of about / along / perpendicular to the stated axis", f"{URDF}:{nonzero[0].lineno}")
 
 
 def axis_invariance(ctx):
@@ -100,6 +171,8 @@ def run(ctx):
     rep.rule("C28.R3", "class-level calls resolve", 2)
     rep.rule("C28.R4", "supported joint types have branches; classes imported", 6)
     rep.rule("C28.R5", "body constructor conformance", 2)
+    rep.rule("C28.R7", "axis-bearing joint types build the joint frame and the child's relative motion from joint.axis (taint)", 6)
+    axis_used(ctx)
     rep.rule("C28.R6", "relative pose and velocity of the child are invariant under scaling of the URDF axis (degree analysis)", 8)
     axis_invariance(ctx)
     model = ctx.model
@@ -273,6 +346,15 @@ MUTANTS += [
          old="        J_omega_JRc = angle_dot * e1\n", new="        J_omega_JRc = angle_dot * axis\n", expect="C28.R6"),
     dict(id="c28-r6-3", what="prismatic joint: displacement divided by the axis length twice", file=URDF,
          old="        J_r_JRc = displacement * e1\n", new="        J_r_JRc = displacement * e1 / norm(axis)\n", expect="C28.R6"),
+]
+MUTANTS += [
+    dict(id="c28-r7-orig", canary=True, what="planar joint: plane normal fixed to the z-axis of the joint frame (original defect)", file=URDF,
+         edits=[(URDF, "        kwargs_joint[\"A_IJ0\"] = parent.A_IR @ A_RpJ @ A_JJ_new\n\n        # use state of the joint to compute child state relative to joint\n        if joint.name in configuration:\n            x, y =",
+                 "        kwargs_joint[\"A_IJ0\"] = parent.A_IR @ A_RpJ\n\n        # use state of the joint to compute child state relative to joint\n        if joint.name in configuration:\n            x, y ="),
+                (URDF, "        J_r_JRc = x * e1 + y * e2\n", "        J_r_JRc = np.array([x, y, 0.0])\n"), (URDF, "        J_v_JRc = vx * e1 + vy * e2\n", "        J_v_JRc = np.array([vx, vy, 0.0])\n")],
+         expect="C28.R7"),
+    dict(id="c28-r7-2", what="prismatic joint displaced along the joint frame's x-axis instead of the URDF axis", file=URDF,
+         old="        J_r_JRc = displacement * e1\n", new="        J_r_JRc = displacement * np.array([1.0, 0.0, 0.0])\n", expect="C28.R7"),
 ]
 NEUTRAL = [
     dict(id="c28-n1", canary=True, what="revolute joint: axis normalised in place by axis_angle_to_A, then used for the angular velocity", file=URDF,
